@@ -1,0 +1,28 @@
+//go:build verif
+
+package server
+
+import (
+	"github.com/resgateio/resgate/server/reserr"
+)
+
+// This file is only compiled with the "verif" build tag. It exports read-only
+// views of unexported routines for the external verification harness.
+
+// VerifMatchesOrigins runs the unexported origin allow-list matcher.
+func VerifMatchesOrigins(os []string, o string) bool { return matchesOrigins(os, o) }
+
+// VerifToLowerASCII runs the unexported ASCII lower-casing routine.
+func VerifToLowerASCII(s string) string { return toLowerASCII(s) }
+
+// VerifErrorStatus runs the unexported error to HTTP status mapping.
+func VerifErrorStatus(err error) (*reserr.Error, int) { return errorStatus(err) }
+
+// VerifStatusError runs the unexported HTTP status to error mapping.
+func VerifStatusError(status int) *reserr.Error { return statusError(status) }
+
+// VerifParseRID runs the unexported resource ID splitter.
+func VerifParseRID(rid string) (string, string) { return parseRID(rid) }
+
+// VerifValidateAllowOrigin runs the unexported allow-list validator (it lower-cases in place).
+func VerifValidateAllowOrigin(s []string) error { return validateAllowOrigin(s) }
